@@ -45,7 +45,7 @@ class Cfg:
     def __init__(self, naming="distinct", method_form=0.3, members=None, called_lambdas=True, odd_selectors=False,
                  containers=True, ifexp=True, keywords_in_called=True, first=True, lists=True, dict_attr=True,
                  comprehension=False, count_fn=True, first_on_seq=True, genexp=False,
-                 captures=False, helpers=False, record_ctor=False, free_scalar=False):
+                 captures=False, helpers=False, record_ctor=False, free_scalar=False, first_of_packages=True, higher_order=False):
         self.naming = naming
         self.method_form = method_form
         self.members = members or MEMBERS
@@ -64,6 +64,8 @@ class Cfg:
         self.captures = captures
         self.helpers = helpers
         self.record_ctor = record_ctor
+        self.first_of_packages = first_of_packages
+        self.higher_order = higher_order
         self.free_scalar = free_scalar
 
 
@@ -171,6 +173,11 @@ def gen(cx: Ctx, env, ty, depth) -> str:
         return _obj(cx, env, ty, depth)
     if k == "S":
         return _seq(cx, env, ty[1], depth)
+    if k in ("T", "L", "R") and cx.cfg.first and cx.cfg.first_of_packages and depth >= 1 and cx.chance(2):
+        # the package is the First() of a sequence of packages: a later projection reaches the First only after substitution
+        src, st_ = _source(cx, env)
+        w = cx.fresh(env)
+        return _first(cx, _op(cx, "Select", src, f"lambda {w}: {gen(cx, bind(env, w, st_), ty, depth - 1)}"))
     if k in ("T", "L"):
         p = pick_path(cx, env, ty) if cx.chance(2) else None
         if p:
@@ -473,6 +480,17 @@ def any_seq(cx: Ctx, env, depth):
 
 
 def _called_lambda(cx: Ctx, env, ty, depth):
+    if cx.cfg.higher_order and ty in (I, F) and cx.chance(3):
+        # a lambda handed to a called lambda and applied there twice with different arguments
+        fn = cx.fresh(env)
+        e_in = bind(env, fn, ("FN",))
+        pt = cx.pick([I, I, F])
+        p = cx.fresh(env)
+        inner = gen(cx, bind(env, p, pt), ty, depth - 1)
+        a1, a2 = gen(cx, e_in, pt, max(depth - 2, 0)), gen(cx, e_in, pt, max(depth - 2, 0))
+        if a1 == a2 and pt == I:
+            a2 = f"({a2} + 1)"
+        return f"(lambda {fn}: {fn}({a1}) {cx.pick(['+', '-', '*'])} {fn}({a2}))(lambda {p}: {inner})"
     n = cx.int_(1, 3)
     if cx.cfg.free_scalar and n == 1 and cx.chance(5):
         n = 2
